@@ -231,7 +231,12 @@ def h_deepcopy(c):
                 [len(cp) == L, c.eq(cp.start_step, start),
                  c.eq(cp.end_step, start + L)]), 'deepcopy: equal content')
   cp.append(pad)
+  cp.set_length(max(L - 1, 0))
+  cp.append(pad)
   c.check(len(seq) == L, 'deepcopy: editing the copy leaves the original')
+  _inv(c, seq, kind, 'original after editing its deep copy')
+  c.check(c.And([_ev_eq(c, a, b) for a, b in zip(list(seq), ev)] or [True]),
+          'deepcopy: editing the copy leaves the events of the original')
 
 
 def h_steps(c):
@@ -299,8 +304,15 @@ def h_leadsheet(c):
   elif op == 'deepcopy':
     cp = copy.deepcopy(sheet)
     c.check(cp == sheet and cp is not sheet, 'deepcopy equal')
+    # edit the copy both ways, then re-examine the ORIGINAL
     cp.append((60, 'C'))
+    cp.set_length(max(L - 1, 0))
+    cp.append((62, 'F'))
     c.check(len(sheet) == L, 'deepcopy independent')
+    inv('after editing a deep copy')
+    c.check(c.And([c.eq(a, b) for a, b in zip(list(sheet.melody), ev)] or
+                  [True]) and list(sheet.chords) == ch,
+            'editing a deep copy leaves the events of the original')
   elif op == 'steps':
     c.check(len(sheet.steps) == len(sheet), 'steps lists one step per event')
   elif op == 'slice':
@@ -352,8 +364,11 @@ def h_pianoroll(c):
     c.check(len(seq.steps) == len(seq), 'steps lists one step per event')
   elif op == 'deepcopy':
     cp = copy.deepcopy(seq)
+    before = list(seq)
     cp.append(())
-    c.check(len(seq) == L, 'deepcopy independent')
+    cp.set_length(max(L - 1, 0))
+    cp.append((60,))
+    c.check(len(seq) == L and list(seq) == before, 'deepcopy independent')
 
 
 def _mk_perf(c, L, metric):
@@ -470,6 +485,8 @@ def h_perf_edit(c):
   elif op == 'deepcopy':
     cp = copy.deepcopy(perf)
     cp.append(PE(PE.TIME_SHIFT, 1))
+    cp.truncate(max(L - 1, 0))
+    cp.append(PE(PE.NOTE_ON, 60))
     c.check(len(perf) == L, 'deepcopy independent')
     _perf_inv(c, PE, perf, start, 'deepcopy')
 
